@@ -80,13 +80,14 @@ type Enc struct {
 	candByLoop map[loopKey][]*Clause
 	faultPoints []string
 	usedAssumes map[string]bool
+	waived      []string
 }
 
 func newEnc(P *Program, U *Universe, fn *ssa.Function) *Enc {
 	e := &Enc{P: P, U: U, Top: fn, Key: funcKey(fn),
 		decls: map[string]Sort{}, defs: map[string]Term{}, factsBy: map[string][]int{},
 		names: map[string]int{}, famSort: map[string]Sort{}, usedInvs: map[string]bool{}, usedAssumes: map[string]bool{}}
-	e.Spec = P.Specs.Funcs[e.Key]
+	e.Spec = P.specFor(fn)
 	if e.Spec != nil && e.Spec.Mode == "bv64" {
 		e.bv = true
 	}
@@ -311,6 +312,15 @@ func (e *Enc) mergeStates(conds []Term, sts []*State) *State {
 func (e *Enc) addOblig(kind, name string, props []string, pos string, reach, goal Term) *Oblig {
 	if goal.S == "true" {
 		return nil
+	}
+	if sp := e.Spec; sp != nil {
+		for _, w := range sp.Waive {
+			if w.Kind == kind && (w.Text == "" || strings.Contains(name, w.Text)) {
+				w.Used = true
+				e.waived = append(e.waived, fmt.Sprintf("%s#%s[%s]: %s", e.Key, kind, name, w.Reason))
+				return nil
+			}
+		}
 	}
 	full := e.Key + "#" + kind + "[" + name + "]"
 	n := e.names["O:"+full]
